@@ -525,6 +525,18 @@ func runProperty(w *World, res *checkResult, thorough bool, timeoutMs int) {
 		}
 		all = append(all, o3)
 	}
+	if p == "C20" {
+		// package-level variables: besides the struct fields covered by the declarations above, state shared between
+		// goroutines can live in package variables (a cached buffer, a pool). None is written outside an initialiser.
+		gw := globalWrites(w)
+		o := &Obligation{Name: "globals:readonly", Fn: "globals", Kind: "globals", Tags: []string{"C20"}, Goal: "true", Status: "trivial",
+			Src: "no function of the module stores to a package-level variable, or hands out its address, outside a package initialiser (sync primitives and the logger under logging.mux excepted)"}
+		if len(gw) > 0 {
+			o.Status, o.Solver, o.Goal = "sat", "syntactic", "false"
+			o.Output = strings.Join(gw, " | ")
+		}
+		all = append(all, o)
+	}
 	if p == "C14" {
 		// the yes/no answer of an expired timer is atomic with arming and stopping only because the running mark,
 		// the timer type and the installed stop channel are accessed under the timer mutex: those lock-discipline
